@@ -53,6 +53,10 @@ Inductive stmt :=
 | SLoopUntil (v : nat) (maxit : Z) (body : block) (cx : cval) (bound : Z) (cleanup : block)
 | SEpr (k : eprkind) (body : block)
 | SFlush
+(* an array entry addressed through an index that is itself an array entry:
+   data_a.get_future_index(where_b.get_future_index(n)) *)
+| SFutAddX (a b n : nat) (o : addsrc) (m : option Z)        (* that future .add(o, m) *)
+| SMeasFutX (q : nat) (inplace : bool) (a b n : nat)        (* q.measure(future = that future) *)
 with block :=
 | BNil
 | BCons (s : stmt) (b : block).
@@ -92,7 +96,7 @@ with bnoflush (b : block) : bool :=
 (* only default register choices: no loop_register=..., no new_register *)
 Fixpoint plain (s : stmt) : bool :=
   match s with
-  | SNewReg _ _ | SUAdd _ _ _ => false
+  | SNewReg _ _ | SUAdd _ _ _ | SFutAddX _ _ _ _ _ | SMeasFutX _ _ _ _ _ => false
   | SLoop _ _ (Some _) _ _ _ _ => false
   | SIf _ _ _ _ b | SLoop _ _ None _ _ _ b | SForeach _ _ _ b | SEpr _ b => bplain b
   | SLoopUntil _ _ b _ _ cl => bplain b && bplain cl
